@@ -57,6 +57,7 @@ Inductive fevent :=
 | FEPrepare (t : tid) (fail : bool)
 | FECommit (t : tid)
 | FEPut (t : tid) (fail : bool)
+| FEPutLost (t : tid)
 | FEDel (t : tid) (fail : bool)
 | FENotify (t : tid)
 | FESwap (t : tid)
@@ -161,6 +162,12 @@ Definition fstep (skipgc : bool) (s : fstate) (e : fevent) : option fstate :=
       | FNeedPut new old =>
           if fail then Some (fnotify s t RErr)
           else Some (fafter_put skipgc (fset_reg s (Some new) (new :: f_store s)) t old)
+      | _ => None
+      end
+  | FEPutLost t =>
+      (* the PUT takes effect, the client sees an error: update() returns it *)
+      match f_pcs s t with
+      | FNeedPut new old => Some (fnotify (fset_reg s (Some new) (new :: f_store s)) t RLost)
       | _ => None
       end
   | FEDel t fail =>
@@ -289,6 +296,9 @@ Definition fvis_step (sg : bool) (changes : list change) (acc : fstate * list ob
     | VU t f =>
         let log1 := match f_pcs s t with FNeedPut nw _ => log ++ [OPut t nw] | _ => log end in
         match fstep sg s (FEPut t f) with Some s1 => Some (s1, log1) | None => None end
+    | VL t =>
+        let log1 := match f_pcs s t with FNeedPut nw _ => log ++ [OPut t nw] | _ => log end in
+        match fstep sg s (FEPutLost t) with Some s1 => Some (s1, log1) | None => None end
     | VD t f => match fstep sg s (FEDel t f) with Some s1 => Some (s1, log) | None => None end
     | VX => match fstep sg s FEExtDrop with Some s1 => Some (s1, log) | None => None end
     end in
